@@ -804,9 +804,53 @@ class Interp:
             return SymKey(k)
         return k
 
+    @staticmethod
+    def counting_while_as_for(s):
+        """`while i < HI: BODY; i += 1` (the counter initialised before the loop) is `for i in range(i, HI): BODY` followed by
+        `i = max(i, HI)`, provided BODY does not assign i, does not `continue` (which would skip the increment) or `break`, and does
+        not assign a name HI reads. Returns (for-node, counter name, HI expression) or None. Purely syntactic, checked here."""
+        t = s.test
+        if not (isinstance(t, ast.Compare) and len(t.ops) == 1 and not s.orelse and s.body):
+            return None
+        if isinstance(t.ops[0], ast.Lt) and isinstance(t.left, ast.Name):
+            ctr, hi = t.left.id, t.comparators[0]
+        elif isinstance(t.ops[0], ast.Gt) and isinstance(t.comparators[0], ast.Name):
+            ctr, hi = t.comparators[0].id, t.left
+        else:
+            return None
+        last, body = s.body[-1], s.body[:-1]
+        inc = (isinstance(last, ast.AugAssign) and isinstance(last.op, ast.Add) and isinstance(last.target, ast.Name) and last.target.id == ctr
+               and isinstance(last.value, ast.Constant) and last.value.value == 1) or \
+              (isinstance(last, ast.Assign) and len(last.targets) == 1 and isinstance(last.targets[0], ast.Name) and last.targets[0].id == ctr
+               and ast.unparse(last.value) in ("%s + 1" % ctr, "1 + %s" % ctr))
+        if not inc or not body:
+            return None
+        hi_names = {x.id for x in ast.walk(hi) if isinstance(x, ast.Name)}
+        for st in body:
+            for x in ast.walk(st):
+                if isinstance(x, (ast.Continue, ast.Break)):
+                    return None
+                if isinstance(x, ast.Name) and isinstance(x.ctx, ast.Store) and (x.id == ctr or x.id in hi_names):
+                    return None
+        rng = ast.Call(func=ast.Name(id="range", ctx=ast.Load()), args=[ast.Name(id=ctr, ctx=ast.Load()), hi], keywords=[])
+        node = ast.For(target=ast.Name(id=ctr, ctx=ast.Store()), iter=rng, body=body, orelse=[], type_comment=None)
+        ast.copy_location(node, s)
+        ast.fix_missing_locations(node)
+        return node, ctr, hi
+
     def st_While(self, s, f):
         key = (f.fname, self.loop_ordinal(f, s))
         if key in self.loops:
+            conv = self.counting_while_as_for(s) if getattr(self.loops[key], "statement", ast.For) is ast.For else None
+            if conv is not None:  # a counting while loop where the sidecar's invariant is stated over the equivalent for loop
+                node, ctr, hi = conv
+                i0, hi_v = self.eval(ast.Name(id=ctr, ctx=ast.Load()), f), self.eval(hi, f)
+                self.loop_with_invariant(node, f, self.loops[key])
+                if is_z3(i0) or is_z3(hi_v):
+                    f.locals[ctr] = z3.If(to_z3(i0) < to_z3(hi_v), to_z3(hi_v), to_z3(i0))
+                else:
+                    f.locals[ctr] = max(i0, hi_v)
+                return None
             return self.loop_with_invariant(s, f, self.loops[key])
         n = 0
         while True:
